@@ -750,6 +750,13 @@ def touch(w, st):
                 fn()
             except Exception:  # noqa
                 pass
+    if w.batch is not None and w.n % 3 == 0 and not st.get("nlost"):
+        # a nested batch that does nothing: opening and leaving it must not disturb the outer one
+        try:
+            with w.batch.squash_changes():
+                pass
+        except Exception:  # noqa
+            pass
 
 
 def pre_info(w):
